@@ -3,7 +3,7 @@
 # carries ordinal-keyed loop contracts, on the tree the contracts are written against (run on the unchanged /repo only).
 cd "$(dirname "$0")/.."
 rm -f /tmp/loops.json
-for i in 01 04 05 06 07 08 09 10 11 12 13 14 15 16 18 19 20; do
+for i in 01 02 04 05 06 07 08 09 10 11 12 13 14 15 16 18 19 20; do
   PYVC_RECORD_LOOPS=/tmp/loops.json PYVC_Z3_TIMEOUT_MS=100 PYVC_EMATCH_TIMEOUT_MS=100 PYVC_FALLBACK_TIMEOUT_S=1 timeout 600 ./check C$i --no-bounded >/dev/null 2>&1
 done
 cp /tmp/loops.json contracts/loop_headers.json; rm -f /tmp/loops.json
